@@ -54,10 +54,21 @@ def default_sig(ctx):
 def run_history_shard(prop, seed, shard, of, tier, deadline, *, cases,
                       gen_kwargs, make_monitors, nontrivial, classify=None,
                       signature=default_sig, after_hand=None,
-                      cfg_filter=None, pol_tweak=None, play=None):
-    """Play `cases[tier] / of` generated hands under the monitors."""
+                      cfg_filter=None, pol_tweak=None, play=None,
+                      explore_s=None, explore_nodes=None):
+    """Play `cases[tier] / of` generated hands under the monitors.
+    With explore_s = {tier: seconds} the shard first walks the complete
+    decision trees of small games (vflib.explore) for that long."""
     res = Shard()
     rng = random.Random(shard_seed(seed, prop, shard))
+    if explore_s and explore_s.get(tier):
+        from vflib import explore
+        xr = random.Random(shard_seed(seed, prop + ':explore', shard))
+        budget = min(explore_s[tier], max(1.0, (deadline - time.time()) / 3))
+        explore.run_exploration(
+            res, prop, xr, make_monitors, budget,
+            (explore_nodes or {}).get(tier, 3000), classify=classify,
+            nontrivial=nontrivial, cfg_hook=cfg_filter)
     n = max(1, cases[tier] // of)
     for k in range(n):
         if time.time() > deadline:
